@@ -4,6 +4,11 @@
 //   SHIM_LOG     file to append the call log to (one line per counted call)
 //   SHIM_N       1-based number of the counted call to act on (0 / unset: only log)
 //   SHIM_MODE    kill-before | kill-after | enospc | eio
+//   SHIM_GATE_DIR, SHIM_TAG   (scheduling of concurrent cycles, TufStoreConc.tla) the process stops
+//                immediately before every open-for-reading of timestamp.json / snapshot.json /
+//                targets.json and before the temporary file that replaces it is created: it creates
+//                <gate>/<tag>.at.<j> (j = 1, 2, ... per process) and waits until <gate>/<tag>.go.<j>
+//                exists (at most 30 s, then it carries on)
 //
 // Counted calls: open/open64/openat/openat64/creat on a tracked path, write on a tracked fd,
 // close on a tracked fd, unlink/unlinkat, rename/renameat/renameat2 touching a tracked path.
@@ -57,6 +62,43 @@ static void logline(long n, const char *op, const char *a, const char *b) {
     real_close(fd);
 }
 
+static int main_file(const char *s) {
+    return s && (!strcmp(s, "timestamp.json") || !strcmp(s, "snapshot.json") || !strcmp(s, "targets.json"));
+}
+static long gate_no = 0;
+static int gate_armed = 0, gate_opens = 0;
+// Stops before the read of a stored document and before its replacement.  The rename itself may be
+// issued as a raw system call (tempfile::persist) that this library does not see, so the second
+// gate of a phase is placed at the call that starts the replacement: after the stored document has
+// been read, the first file opened for writing is latest_known_time's temporary file, the second
+// one the temporary file that is renamed over the stored document.
+static void gate(const char *op, const char *a, const char *b) {
+    const char *gd = getenv("SHIM_GATE_DIR");
+    const char *tag = getenv("SHIM_TAG");
+    if (!gd || !tag) return;
+    (void)b;
+    int hit = 0;
+    pthread_mutex_lock(&mu);
+    if (!strcmp(op, "open-r") && main_file(a)) { hit = 1; gate_armed = 1; gate_opens = 0; }
+    else if (gate_armed && !strcmp(op, "open-w") && ++gate_opens == 2) { hit = 1; gate_armed = 0; }
+    long j = hit ? ++gate_no : 0;
+    pthread_mutex_unlock(&mu);
+    if (!hit) return;
+    static int (*real_open)(const char *, int, ...) = NULL;
+    static int (*real_close)(int) = NULL;
+    if (!real_open) real_open = dlsym(RTLD_NEXT, "open");
+    if (!real_close) real_close = dlsym(RTLD_NEXT, "close");
+    char at[600], go[600];
+    snprintf(at, sizeof at, "%s/%s.at.%ld", gd, tag, j);
+    snprintf(go, sizeof go, "%s/%s.go.%ld", gd, tag, j);
+    int fd = real_open(at, O_WRONLY | O_CREAT, 0644);
+    if (fd >= 0) real_close(fd);
+    for (long waited = 0; waited < 30000000L; waited += 200) {
+        if (access(go, F_OK) == 0) return;
+        usleep(200);
+    }
+}
+
 // returns: 0 proceed normally; 1 fail with errno set; (kill-before never returns)
 static int before(const char *op, const char *a, const char *b, long *my) {
     pthread_mutex_lock(&mu);
@@ -64,6 +106,7 @@ static int before(const char *op, const char *a, const char *b, long *my) {
     pthread_mutex_unlock(&mu);
     *my = n;
     logline(n, op, a, b);
+    gate(op, a, b);
     if (n == target_n()) {
         const char *m = mode();
         if (!strcmp(m, "kill-before")) { kill(getpid(), SIGKILL); pause(); }
